@@ -7,6 +7,11 @@ props = [json.loads(l)['id'] for l in open(os.path.join(V, 'properties.jsonl'))]
 COMMON_NOTE = ("Trusted: Coq 8.16.1 kernel + VM (vm_compute), no axioms (Print Assumptions: closed); tools/py2coq.py and "
                "coq/Prelude/Py.v (Python semantics of the translated subset); the correspondence harness. ")
 
+GEN_NOTE = (COMMON_NOTE + "The generator and the generated code are MODELLED (deep embedding: Model/Spec.v raw XML AST, Model/Elab.v elaboration mirroring the generator's rules, "
+   "Model/Ser.v / Model/Deser.v statement-level reference semantics over the writer/reader models) and tied to /repo by running the REAL generator on every "
+   "specification tree (hand-written mini-eo corpus + grammar-based random trees with a printed feature matrix) and executing the generated classes; identifier hygiene, "
+   "docstrings, HTML unescaping are not modelled. ")
+
 CHECKS = {
  'C07': dict(
    text="Coq theorems over ALL integers of the range / ALL byte lists (Properties/C07.v: round trip, wire safety, prefix "
@@ -22,6 +27,43 @@ CHECKS = {
         "(byte value x position parity x length parity) table.",
    technique="Coq proof (induction on lists, lia on nested ifs) + py2coq bridge + vm_compute correspondence",
    note=COMMON_NOTE + "bytearray element stores assumed in range(256) (true for byte inputs; an out-of-range store would show as an exception in the correspondence).", ref="8 (C08)"),
+ 'C02': dict(
+   text="Coq theorems over ALL elaborated specs and ALL objects (Properties/C02.v): the statement-level semantics of generated serializers equals a pure declarative wire-format "
+        "function enc (ser = Ok iff enc = Some, same bytes, mode kept); document order = concatenation of per-instruction outputs; arrays in closed form (trailing / separating "
+        "0xFF / plain); length fields carry len - offset; break = [0xFF]; hardcoded / dummy literals; 0xFF padding; sanitisation exactly by the static mode of <chunked>; the case "
+        "selected by the switch value; explicit spelling of boolean attribute defaults leaves elaboration unchanged for whole protocols; packets carry the declared family/action "
+        "ordinals. Tie: real generator + generated serializers vs the model on corpus + random trees (bytes, outcome, final mode), explicit-default variants must yield byte-identical sources.",
+   technique="Coq proof (refinement ser<->enc by induction, elaboration invariance under attribute normalisation) + differential correspondence with really generated code",
+   note=GEN_NOTE, ref="8 (C02), 6"),
+ 'C03': dict(
+   text="Coq theorems over ALL envs, classes, reader states / byte strings (Properties/C03.v): every reader state a deserializer reaches satisfies the invariant 0<=chunk start<=pos<=len "
+        "with a valid break cache and is over the same data; every primitive read is a slice at the position bounded by remaining; on a well-formed class (decidable wf_class, evaluated "
+        "for every elaborated tree) the ONLY errors are the negative-length ValueError or fuel exhaustion; optional fields are absent exactly when nothing remains; enum ordinals are preserved; "
+        "exhausted reads give 0/empty. Termination for every accepted spec is NOT proved (the generator accepts a non-progressing shape: known finding F4); the model reports EFuel there. "
+        "Tie: generated deserializers vs model on valid serializations, every prefix, 0x00/0xFE/0xFF-biased edits, junk, random bytes, both entry modes.",
+   technique="Coq proof (reader invariant preserved through the deserializer semantics, error-kind analysis under a decidable well-formedness check) + differential correspondence on hostile bytes",
+   note=GEN_NOTE + "'Deserializations whose hostile length fields make CPython loop thousands of times are checked by the oracle but excluded from the in-Coq evaluation (marked heavy).", ref="8 (C03)"),
+ 'C15': dict(
+   text="Coq theorems over ALL fuel/env/class/value/writer and reader states, Ok or Err alike (Properties/C15.v): serialize leaves the sanitisation mode and deserialize the chunked mode "
+        "as found - for ANY nested callee; inside a body the mode is the static function of the entry mode and the mode statements executed (also on error, up to the failing statement, "
+        "which is never a mode statement); a nested struct is entered in the caller's mode and the caller continues in it. Tie: generated code run in both entry modes with validation "
+        "errors planted at any depth and writer/reader primitives failing at their k-th call; final mode compared with the entry mode and with the model.",
+   technique="Coq proof (mode preservation lemmas per primitive, static-mode invariant by induction over instruction lists and fuel) + differential correspondence incl. injected failures",
+   note=GEN_NOTE + "'The restore itself is part of the model (try/finally); that the emitted code has it is what the correspondence checks.", ref="8 (C15)"),
+ 'C16': dict(
+   text="Coq theorems over ALL specs and objects at every nesting depth (Properties/C16.v): a complete serialization implies the object satisfies the declarative validity predicate "
+        "valid_decl (required fields present, lengths exact / within padded or length-field bounds, integers below their limit, case data of exactly the selected case's class or None); "
+        "per-violation lemmas (required None, length violation, integer at limit, wrong / unmatched case data) give the error kind and leave the writer untouched; earlier output is never lost. "
+        "Tie: every single-violation mutant of generated valid objects is serialized by the generated code and must raise SerializationError/ValueError, and agree with the model.",
+   technique="Coq proof (soundness of serialization w.r.t. a declarative validity predicate, induction on fuel and instruction lists) + enumerated single-violation mutants on generated code",
+   note=GEN_NOTE, ref="8 (C16)"),
+ 'C17': dict(
+   text="The acceptance rules of the generator are a Coq function elab (Model/Elab.v, mirroring type_factory / object / field / switch / code_generator checks in order); "
+        "Properties/C17.v states, per rule of the catalogue, that a specification exhibiting the violation at ANY position of ANY class body (any nesting of chunked sections and switch cases, any file) "
+        "is rejected. Tie: ~65 instruction-level rules x 7 nesting contexts x 9 placements plus ~40 declaration-level edits are applied to valid trees; the REAL generator must reject each "
+        "(oracle) and accept/reject must equal elab's verdict on every tree.",
+   technique="Coq proof (error propagation through elaboration + per-rule rejection lemmas) + differential accept/reject correspondence on catalogued rule-violating edits",
+   note=GEN_NOTE, ref="8 (C17)"),
  'C04': dict(
    text="Coq theorems over ALL lists of valid typed items in which only the last may read to the end (Properties/C04.v: every valid write is accepted "
         "and appends exactly item_bytes; each matching read at a reader framed as pre++bytes++post returns the value written - strings as their "
